@@ -106,6 +106,11 @@ def check_dmrg(case, rec):
     try:
         E1 = one_call('first call', E_start)
         if case['second_call']:
+            if case.get('edit_between'):
+                # user-style edit between the invocations (norm 3): the second call must start from the current tensors
+                k = case['psi']['seed'] % L
+                psi.A[k] = 3.0 * psi.A[k]
+                rec.label('edit_between_calls')
             one_call('second call', E1)
             rec.label('second_call')
     except Excluded:
@@ -123,6 +128,7 @@ def gen_dmrg(draw, tier):
     c['iters'] = draw(st.sampled_from([4, 2, 3, 5, 8, 40]))
     c['tol_split'] = draw(st.sampled_from([0, 0, 0, 1e-8, 1e-2]))
     c['second_call'] = draw(st.booleans())
+    c['edit_between'] = draw(st.booleans())
     return c
 
 
